@@ -162,8 +162,9 @@ func (p *poller) pollPeers(ctx context.Context, force bool) {
 			continue
 		}
 
-		peer.MarkAsPolled()
-		if err := p.store.SavePeerState(peer); err != nil {
+		// Only the poll time is written: saving the copy read at the start of
+		// the round would overwrite a capability stored since then.
+		if err := p.store.MarkPeerPolled(peer.ID(), time.Now()); err != nil {
 			log.Printf("failed to persist peer state for %s: %v", peer.ID().String(), err)
 		}
 	}
